@@ -565,8 +565,8 @@ fn e2(tier: Tier, which: u64, ctx: &mut Ctx) {
 		states: Vec<String>,
 		popped: Vec<String>,
 		dropped: bool,
-		calls: u64,
-		fails: u64,
+		calls: sched::NoCmp<u64>,
+		fails: sched::NoCmp<u64>,
 		panics: Vec<String>,
 		/// the thread only ended after the epilogue created another sub-track
 		lazily: bool,
@@ -664,8 +664,8 @@ fn e2(tier: Tier, which: u64, ctx: &mut Ctx) {
 			stats.abort.store(true, Ordering::SeqCst);
 			false
 		};
-		o.calls = stats.decode_calls.load(Ordering::SeqCst);
-		o.fails = stats.failures_returned.load(Ordering::SeqCst);
+		o.calls = sched::NoCmp(stats.decode_calls.load(Ordering::SeqCst));
+		o.fails = sched::NoCmp(stats.failures_returned.load(Ordering::SeqCst));
 		drop(kept);
 		if !o.dropped || o.lazily {
 			LEAKS.fetch_add(1, Ordering::SeqCst);
@@ -705,7 +705,7 @@ fn e2(tier: Tier, which: u64, ctx: &mut Ctx) {
 			};
 			fails.push((format!("{} :: E2 {}", kind, name), sd()));
 		}
-		if o.fails > 8 {
+		if o.fails.0 > 8 {
 			fails.push((format!("decoder thread keeps calling a failing decoder :: E2 {}", name), sd()));
 		}
 		// heard frames: source frames in order (rate 1), gaps allowed
